@@ -4,7 +4,10 @@ M: GcProto (reload against commit / merge / GC / rollback, with and without the 
 T: reader threads reload / search / re-read held searchers while a real writer runs; ReaderTrace
    judges every reload (= exactly one commit, monotone) and every re-read (unchanged).
 R: the schedule found by the model (reader of a second Index instance parked right after it read
-   meta.json while the writer commits, merges and collects) is forced with the SimDirectory gate."""
+   meta.json while the writer commits, merges and collects) is forced with the SimDirectory gate.
+M/R: ReloadProto (several threads reloading ONE IndexReader: open / warm / publish as separate steps;
+   without the reload lock the reader moves back - finding F48, repaired) and the schedule it finds,
+   forced with the gate (first thread parked after it released the meta lock, or in its warmer)."""
 import json
 
 import tracecheck
@@ -13,7 +16,7 @@ from vlib import log
 from props import c02
 
 LEVEL = "model_checking"
-EVS = c02.API_EVS | {"call", "reader_new", "reload_start", "reload", "held", "schedule"}
+EVS = c02.API_EVS | {"call", "reader_new", "reload_start", "reload", "held", "peek", "schedule"}
 
 
 def prepare(events):
@@ -46,7 +49,7 @@ def run(ctx):
     ctx.cov["rule"] = ("a case is one run of a real writer with concurrent reader threads (every reload and every re-read of a held searcher is one "
                        "judged observation) or one model state; distinct = distinct sequence of writer operations and reload results; non-trivial "
                        "= at least 3 reloads, 2 commits and one re-read of a held searcher")
-    ctx.assumptions += ["reloads ordered by happens-before (same reader thread) are required to be monotone; overlapping reloads of one IndexReader are not exercised",
+    ctx.assumptions += ["what an IndexReader publishes must never be older than what one of its completed reloads (by any thread) exposed; overlapping reloads of one IndexReader are exercised by the gated `shared` schedule only",
                         "the content of a commit comes from the sequential oracle; a reload may expose any commit between the last one completed when it started and the one in progress when it returned"]
     vlib.mc_check(ctx, "GcProto", "GcProto_remote.cfg", timeout=300, workers=6)
     vlib.mc_check(ctx, "GcProto", "GcProto_local.cfg", timeout=300, workers=6)
@@ -117,6 +120,23 @@ def run(ctx):
     log(f"[R] gated schedule (reader parked after atomic_read(meta.json)): {realised}/{len(gruns)} realised, {n2} accepted")
     if realised == 0:
         raise vlib.ToolError("the gated schedule was never realised")
+    # R: the schedule ReloadProto finds without the reload lock (finding F48): two threads reload ONE
+    # IndexReader; the first is parked after it opened the segments of commit k (right after it released
+    # the meta lock, or inside its warmer) while the writer commits k+1 and the second thread reloads
+    vlib.mc_check(ctx, "ReloadProto", "ReloadProto.cfg", timeout=120, workers=2)
+    vlib.mc_check(ctx, "ReloadProto", "ReloadProto_negF48.cfg", expect_violation="NeverMovesBack", timeout=120, workers=2)
+    sp = ctx.path("shared.ndjson")
+    vlib.run_bin("reader_driver", ["shared", "--seed", ctx.seed + 3, "--runs", 9 if ctx.quick else 90, "--out", sp], timeout=900)
+    sev = vlib.read_ndjson(sp)
+    sruns = prepare(sev)
+    sreal = sum(1 for e in sev if e.get("ev") == "schedule" and e.get("realised"))
+    n6 = tracecheck.validate_runs(ctx, sruns, "shared", "ReaderTrace", "ReaderTrace.cfg", key=key, nontrivial=lambda r: True, timeout=300)
+    ctx.cov["traces_validated_against_impl"] += n6
+    ctx.cov["shared_reader_schedules"] = {"runs": len(sruns), "realised": sreal, "accepted": n6,
+                                          "second_reload_overtook": sum(1 for e in sev if e.get("ev") == "schedule" and e.get("second_reload_overtook"))}
+    log(f"[R] two threads reloading one IndexReader, the first parked before it publishes while a commit completes: {sreal}/{len(sruns)} realised, {n6} accepted")
+    if sreal == 0:
+        raise vlib.ToolError("the shared-reader schedule was never realised")
     if runs:
         ctx.sample({"kind": "reader events of one run", "events": [{k: v for k, v in e.items() if k != "obs"} for e in runs[0] if e["ev"] in ("reload_start", "reload", "held", "commit", "call")][:16]})
 
